@@ -581,10 +581,12 @@ PROPS = {
         "vertices/transactions over boundary values per field (lengths 0,1,31,32,33,255,256,65535,65536; integers at 2^7,2^8,2^16,2^32,2^63,2^64 boundaries; timestamps at the epoch, 2^32 s, "
         "2^34 s, negative, int64-nanosecond limits; UTF-8 and raw bytes), each dimension swept around a base point + seeded random combinations + one genuinely signed vertex; real mapping "
         "functions + real proto.Marshal/Unmarshal, real msgpack encode (vmihailenco) / decode (shamaton) for Vertex, Transaction, Melange, Balance; non-trivial = every round trip executed",
-        "field-wise equality of all signed fields, signed messages and verification result (monitor); model to_proto/of_proto on every case and enc_u64/enc_time/dec_* BYTE-EXACT against msgpack.Marshal output (coqc vm_compute)",
-        ["struct-level msgpack (map headers, str/bin framing) is validated by the round-trip monitor, not modelled byte by byte; the modelled primitives are uint64 and time",
+        "field-wise equality of all signed fields, signed messages and verification result (monitor); model to_proto/of_proto on every case; enc_u64/enc_time/dec_* and the WHOLE msgpack form of "
+        "every generated Vertex and Transaction (enc_vtx / enc_trx: map header, keys, str/bin/ext framing) BYTE-EXACT against msgpack.Marshal output, and dec_vtx / dec_trx of the real bytes give back the "
+        "generated value (coqc vm_compute; bodies above 20 kB: a dozen per run); struct layout regenerated from the Go struct tags (Gen/CodecFields.v) and compared in C19_msgpack_layout_is_the_source_layout",
+        ["the msgpack DECODER library (shamaton) is tied to the model only through the round-trip monitor on the real code (the model decoder is proved against the model encoder, the model encoder is byte-exact against the real encoder)",
          "protobuf encoding itself (varints, length-delimited fields) is trusted library code; the model covers the mapping functions and the timestamp arithmetic"],
-        ("Model/Codec.vo",)),
+        ("Model/Codec.vo", "Run/CheckCodec.vo")),
     "C17": make_pure_check("C17", "cache",
         "seeded sequential sequences of SaveAwaitedTransaction / RemoveAwaitedTransaction (by the receiver, by others, unknown hashes, repeats, issuer = receiver) on the real cache over 4 "
         "addresses, with ReadTransactions of EVERY address after EVERY operation; plus concurrent rounds (16 goroutines saving/reading then 8 removing on one receiver); "
